@@ -4,6 +4,7 @@
 // this driver over its own parse of the document.
 #include "xform.hpp"
 #include <sstream>
+#include <cmath>
 
 using namespace sim;
 using namespace xalanc;
@@ -104,6 +105,15 @@ bool decodeList(const std::string& v, const std::string& tok, std::vector<int>& 
 }
 std::string listStr(const std::vector<int>& l) { std::string s; for (size_t i = 0; i < l.size(); ++i) { if (i) s += "."; s += std::to_string(l[i]); } return s; }
 
+// the value expressions the generator emits, evaluated on the driver's tree
+double valueOf(const Tree& t, int c, const std::string& e) {
+    int prec = 0; for (int i = 0; i < c; ++i) if (!isAncestor(t, i, c)) ++prec;           // preceding::* = before in document order and not an ancestor
+    int anc = 0; for (int p = t.n[c].parent; p >= 0; p = t.n[p].parent) ++anc;
+    int kids = (int)t.n[c].kids.size(); int ps = 0; if (t.n[c].parent >= 0) for (int s : t.n[t.n[c].parent].kids) { if (s == c) break; ++ps; }
+    if (e == "count(preceding::*) div 2") return prec / 2.0; if (e == "(count(preceding::*) + count(ancestor::*)) div 4") return (prec + anc) / 4.0;
+    if (e == "count(*) + 0.5") return kids + 0.5; if (e == "count(preceding-sibling::*) * 1.5 + 1") return ps * 1.5 + 1; return prec + 1;
+}
+
 std::string shapeOf(const std::string& pat) { if (pat.empty()) return "default"; if (pat == "*") return "star"; if (pat.find('|') != std::string::npos) return "union"; if (pat.find('[') != std::string::npos) return "pred"; return "name"; }
 
 struct C17 : public Driver {
@@ -119,6 +129,7 @@ struct C17 : public Driver {
         for (size_t i = 0; i < sets.a.size(); ++i) {
             const Json& p = sets.a[i]; std::string attrs = " level=\"" + p.str("level") + "\"";
             if (!p.str("count").empty()) attrs += " count=\"" + p.str("count") + "\""; if (!p.str("from").empty()) attrs += " from=\"" + p.str("from") + "\"";
+            if (!p.str("value").empty()) attrs = " value=\"" + p.str("value") + "\"";
             s += "<o f=\"s" + std::to_string(i) + "\" n=\"{@id}\"><xsl:number" + attrs + " format=\"1\"/></o>";
             s += "<o f=\"t" + std::to_string(i) + "\" n=\"{@id}\"><xsl:number" + attrs + " format=\"" + p.str("token") + "\"/></o>";
         }
@@ -142,6 +153,8 @@ struct C17 : public Driver {
             unsigned c = (unsigned)g.below(6); std::string cnt;
             if (c == 0 || (dc.manyNames && c < 3)) cnt = ""; else if (c == 1) cnt = name(); else if (c == 2) cnt = "*"; else if (c == 3) cnt = name() + "|" + name(); else if (c == 4) cnt = name() + "[@k]"; else cnt = "*[@k]";
             s["count"] = cnt; s["from"] = g.chance(1, 3) ? name() : std::string(); s["token"] = g.pick(toks);
+            // a fifth of the sets number by value expression instead (the rounding of xsl:number value=)
+            if (g.chance(1, 5)) { static const std::vector<std::string> vals = { "count(preceding::*) div 2", "(count(preceding::*) + count(ancestor::*)) div 4", "count(*) + 0.5", "count(preceding-sibling::*) * 1.5 + 1", "count(preceding::*) + 1" }; s["value"] = g.pick(vals); s["from"] = ""; s["count"] = ""; }
             sets.push(s);
         }
         p["sets"] = sets;
@@ -193,13 +206,15 @@ struct C17 : public Driver {
         // ---- oracle 1 and 4 on the reference history; oracle 2 across histories
         for (size_t i = 0; i < sets.a.size(); ++i) {
             const Json& S = sets.a[i]; Pat cnt = parsePat(S.str("count")), from = parsePat(S.str("from")); std::string level = S.str("level"), tok = S.str("token");
-            std::string shape = level + "|" + shapeOf(S.str("count")) + "|" + (from.present ? "from" : "nofrom");
+            std::string shape = (S.str("value").empty() ? level : std::string("value")) + "|" + shapeOf(S.str("count")) + "|" + (from.present ? "from" : "nofrom");
             res.tag(shape + "|" + tok);
             for (size_t c = 0; c < t.n.size(); ++c) {
                 const std::string& id = t.n[c].id; std::string ks = "s" + std::to_string(i) + "|" + id, kt = "t" + std::to_string(i) + "|" + id;
                 auto it = values[0].find(ks); if (it == values[0].end()) { res.violate("missing-record", shape, "no record for node " + id); break; }
                 const std::string& got = it->second;
-                std::vector<int> exp; std::string rel; bool decided = expected(t, (int)c, level, cnt, from, exp, rel);
+                std::vector<int> exp; std::string rel; bool decided;
+                if (!S.str("value").empty()) { double v = valueOf(t, (int)c, S.str("value")); long r = (long)std::floor(v + 0.5); decided = r >= 1; exp.clear(); if (decided) exp.push_back((int)r); rel = "value"; level = "value"; }
+                else decided = expected(t, (int)c, level, cnt, from, exp, rel);
                 res.count("numbered_nodes");
                 if (decided) {
                     res.count("oracle_decided");
@@ -210,7 +225,8 @@ struct C17 : public Driver {
                 } else res.count("oracle_open:" + rel);
                 // format round trip
                 auto ft = values[0].find(kt);
-                if (ft != values[0].end()) { std::vector<int> dec, plain; bool okp = decodeList(got, "1", plain);
+                bool positive = !got.empty(); for (char ch : got) if (ch != '.' && (ch < '0' || ch > '9')) positive = false; if (got == "0" || got.compare(0, 2, "0.") == 0) positive = false;   // values below 0.5 are printed as plain numbers: not a list to decode
+                if (ft != values[0].end() && (positive || got.empty())) { std::vector<int> dec, plain; bool okp = decodeList(got, "1", plain);
                     if (!decodeList(ft->second, tok, dec) || (okp && dec != plain)) res.violate("format-roundtrip", tok, "node " + id + ": format='" + tok + "' gives [" + ft->second + "] for the number list [" + got + "]"); else res.count("format_decoded"); }
                 // history independence
                 for (size_t h = 1; h < values.size(); ++h) {
